@@ -21,7 +21,9 @@ RULE = ("datasets / moments / bounds as C06. For each loaded moment: every unit 
         "that was loaded and used with other data first must, after load_data(D), agree with a freshly loaded object. non-trivial = >=2 groups")
 ASSUMPTIONS = ["identity established on a basis; linearity/affinity themselves are checked, not assumed",
                "the relabel/reweight step as used by GridSearch is observed in C09, by ExponentiatedGradient in C08"]
-CLASSES = ["reloaded_object", "control_strata", "ratio_bound", "projection_changes_lambda", "best_response_checked", "loss_moment", "two_nonzero_lambda"]
+CLASSES = ["reloaded_object", "control_strata", "ratio_bound", "best_response_checked", "loss_moment", "two_nonzero_lambda"]
+# classes whose occurrence depends on implementation internals (reported, warned about when absent, never a hard vacuity error)
+SOFT_CLASSES = ["projection_changes_lambda"]
 
 cases = MC.cases
 bounds = MC.bounds
